@@ -247,21 +247,28 @@ def run(ctx: Context) -> None:
             ctx.check('R20.4', target == want and want in p.functions, "each format is written by the library writer of that name", addargs, fw,
                       construct=f"{fmt!r} -> {target}")
         gf = ctx.func(f"{CMDS}.export_geometry.Command.guess_format")
-        rng = {const_value(r.value, None) for r in gf.returns()}
-        cfg = ctx.cfg(gf)
-        falls = [n for k, n in cfg.exits() if k == 'fall']
-        raises = [n for k, n in cfg.exits() if k == 'raise']
-        ok_g = rng <= set(writers) and not falls and all(isinstance(r.exc, ast.Call) and (dotted(r.exc.func) or '').endswith('CommandException') for r in raises) and raises
+        # the function is folded over every extension it mentions and some it does not: what is decided for each one is read off the source,
+        # whether it is written as a chain of tests or as a look-up in a table
+        from .common import Undecided, fold_function
+        path_p = gf.params[-1]
+        want_ext = {'.json': 'geojson', '.geojson': 'geojson', '.wkt': 'wkt', '.wkb': 'wkb', '.shp': 'shapefile'}
+        mentioned = {n.value for n in ast.walk(gf.node) if isinstance(n, ast.Constant) and isinstance(n.value, str) and n.value.startswith('.') and len(n.value) <= 9 and ' ' not in n.value}
+        sample = sorted(set(want_ext) | mentioned | {'.nc', '.txt', '.dbf', '.prj', '.shx', '.gz', '', '.zip'})
+        got, undecided = {}, None
+        for e_ in sample:
+            try:
+                got[e_] = fold_function(gf, {f"{path_p}.suffix": e_})
+            except Undecided as exc:
+                undecided = str(exc)
+                break
+        rng = {v for k, v in got.values() if k == 'return'}
+        ok_g = undecided is None and rng <= set(writers) and all(k in ('return', 'raise') for k, _ in got.values()) \
+            and all(v == 'CommandException' for k, v in got.values() if k == 'raise') and any(k == 'raise' for k, _ in got.values())
         ctx.check('R20.4', ok_g, "guess_format returns only formats that have a writer and refuses unknown extensions with a CommandException", gf, gf.node,
-                  construct=f"guess_format range {sorted(str(x) for x in rng)}")
-        ext = {}
-        for r in gf.returns():
-            for st, inb in enclosing_ifs(gf, r):
-                ext[const_value(r.value, None)] = norm_text(st.test)
-        want_ext = {'geojson': ('.json', '.geojson'), 'wkt': ('.wkt',), 'wkb': ('.wkb',), 'shapefile': ('.shp',)}
-        ok_ext = all(fmt in ext and all(e in ext[fmt] for e in es) and not any(e2 in ext[fmt] for f2, es2 in want_ext.items() if f2 != fmt for e2 in es2 if e2 not in es)
-                     for fmt, es in want_ext.items())
-        ctx.check('R20.4', ok_ext, "each extension is guessed as its own format", gf, gf.node, construct=f"extension tests {ext}")
+                  construct=f"guess_format range {sorted(str(x) for x in rng)}" + (f"; not understood: `{undecided}` (the guess is made from the path's own suffix)" if undecided else ''))
+        ok_ext = undecided is None and all(got[e_] == (('return', want_ext[e_]) if e_ in want_ext else ('raise', 'CommandException')) for e_ in sample)
+        ctx.check('R20.4', ok_ext, "each extension is guessed as its own format, from the last suffix of the output path, and every other extension is refused", gf, gf.node,
+                  construct=f"extension -> outcome {dict((k, v[1] if v[0] == 'return' else v[0]) for k, v in got.items())}"[:300])
         cmds_pkg = [m for name, m in p.modules.items() if name.startswith(CMDS + '.') and not name.rsplit('.', 1)[-1].startswith('_')]
         ctx.require(len(cmds_pkg) >= 4, "fewer than four command modules found")
         for m in sorted(cmds_pkg, key=lambda m: m.name):
